@@ -5,7 +5,7 @@ import sys as _sys
 import numpy as np
 
 from symx.run import Case
-from symx.number import SymBool, Sym, ctx, set_ctx
+from symx.number import SymBool, Sym, ctx, set_ctx, as_sym
 from .common import sp, conj, abs2
 from . import zoo
 
@@ -113,6 +113,40 @@ def extract_adapt_body():
     return None
 
 
+def extract_assign(name):
+    """the statement `name = ...` inside pmtm, from the CURRENT source"""
+    fn = "/repo/src/spectrum/mtm.py"
+    tree = ast.parse(open(fn).read())
+    for node in ast.walk(tree):
+        if isinstance(node, ast.FunctionDef) and node.name == 'pmtm':
+            for sub in ast.walk(node):
+                if isinstance(sub, ast.Assign) and len(sub.targets) == 1 and isinstance(sub.targets[0], ast.Name) \
+                        and sub.targets[0].id == name:
+                    return compile(ast.fix_missing_locations(ast.Module(body=[sub], type_ignores=[])), fn, 'exec')
+    return None
+
+
+def case_adapt_sig2(h, N, cplx):
+    """the data power that drives the adaptive weights is mean |x|^2 (statement taken from the current source)"""
+    code = extract_assign('sig2')
+    if code is None:
+        h.fail("statement `sig2 = ...` not found in pmtm (source shape changed)")
+        return
+    MT = _sys.modules['spectrum.mtm']
+    x = h.vec('x', N, cplx)
+    env = dict(MT.__dict__)
+    env.update(dict(x=x, N=N))
+    if not h.is_sym():
+        env['np'] = np
+    exec(code, env)
+    sig2 = env['sig2']
+    acc = 0
+    for m in range(N):
+        acc = acc + abs2(x[m])
+    h.claim_eq("sig2 = mean |x|^2", sig2, acc / N)
+    h.claim_real("sig2 real", sig2)
+
+
 def case_adapt_step(h, n, nw):
     """one iteration of the adaptive loop from an arbitrary state"""
     code = extract_adapt_body()
@@ -173,11 +207,60 @@ def case_adapt_whole(h, cplx, N, n, iters):
         ev = SymArray.make(lam)
     else:
         ev = np.array(lam)
+    dec0 = len(ctx().decisions) if h.is_sym() else 0
     Sk, w, ev2 = S.pmtm(x, e=ev, v=t, NFFT=n, method='adapt', show=False)
     w = np.asarray(w, dtype=object) if h.is_sym() else np.asarray(w)
     if tuple(w.shape) != (n, 2):
         h.fail("weights shape", "%r" % (tuple(w.shape),))
         return
+    # independent Thomson iteration in the harness (sigma^2 = mean |x|^2, same stopping rule): the returned weights are its weights
+    sig2 = 0
+    for m in range(N):
+        sig2 = sig2 + abs2(x[m])
+    sig2 = sig2 / N
+    E = [[abs2(dft_bin(h, [float(t[m, i]) * x[m] for m in range(N)], n, f)) for i in range(2)] for f in range(n)]
+    Scur = [(E[f][0] + E[f][1]) / 2 for f in range(n)]
+    Sprev = [0] * n
+    tol = 0.0005 * sig2 / n
+    wk = [[lam[i] for i in range(2)] for f in range(n)]
+    it = 0
+    recorded = [taken for taken, _c in ctx().decisions[dec0:]] if h.is_sym() else []
+    while it < 100:
+        if h.is_sym():
+            # same stopping rule; where the comparison is symbolic, follow the decision the code took on this path
+            dist = 0
+            for f in range(n):
+                dist = dist + abs(as_sym(Scur[f] - Sprev[f]))
+            cond = (dist / n > tol)
+            if isinstance(cond, SymBool) and not cond.is_const():
+                if not recorded:
+                    break
+                go = recorded.pop(0)
+            else:
+                go = cond.const_value() if isinstance(cond, SymBool) else bool(cond)
+            if not go:
+                break
+        else:
+            dist = 0
+            for f in range(n):
+                dist = dist + abs(float(np.real(Scur[f] - Sprev[f])))
+            if not (dist / n > float(np.real(tol))):
+                break
+        it += 1
+        Snew = []
+        for f in range(n):
+            num = 0
+            den = 0
+            for i in range(2):
+                b = Scur[f] / (Scur[f] * lam[i] + sig2 * (1 - lam[i]))
+                wk[f][i] = b * b * lam[i]
+                num = num + wk[f][i] * E[f][i]
+                den = den + wk[f][i]
+            Snew.append(num / den)
+        Sprev, Scur = Scur, Snew
+    for f in range(n):
+        for i in range(2):
+            h.claim_eq("weight[%d,%d] = Thomson weight with sigma^2 = mean|x|^2" % (f, i), w[f, i], wk[f][i])
     for f in range(n):
         for i in range(2):
             h.claim_real("weight[%d,%d] real" % (f, i), w[f, i])
@@ -239,6 +322,9 @@ def cases(tier, seed):
     for n, nw in ([(1, 2), (2, 2)] if q else [(1, 2), (2, 2), (2, 3), (3, 2)]):
         out.append(Case("adapt:one-step:NFFT=%d:tapers=%d" % (n, nw), case_adapt_step, dict(n=n, nw=nw),
                         timeout=120 if q else 900, max_paths=4, feas_timeout=3, wall=600 if q else 2400))
+    for cplx in (False, True):
+        for N in ((2, 3) if q else (2, 3, 4, 5)):
+            out.append(Case("adapt:data-power:%s:N=%d" % ('cx' if cplx else 're', N), case_adapt_sig2, dict(N=N, cplx=cplx), **T))
     for cplx in (False, True):
         out.append(Case("adapt:whole:%s:N=3:NFFT=4" % ('cx' if cplx else 're'), case_adapt_whole,
                         dict(cplx=cplx, N=3, n=4, iters=3), timeout=120 if q else 600, max_paths=8, feas_timeout=3,
